@@ -183,6 +183,9 @@ func runKillRace(r *h.Run, prop string) {
 		}
 		return
 	}
+	if prop == "C20" {
+		return // no panic, no hang: judged by the worker and by the bounded operations above
+	}
 	// C18
 	if plug != nil && plug.GotKill {
 		w.Probe("not-graceful")
